@@ -95,6 +95,8 @@ class Explorer:
         self.queries = 0
         self.errors: list[str] = []
         self.inputs = None  # set by the task: name -> symbolic value, for model extraction
+        self.known = []  # known findings (dicts with id, obligation glob, when)
+        self.known_env = {}
         self.kept_smt2 = 0
 
     def run(self, body):
@@ -122,6 +124,11 @@ class Explorer:
 
     def results(self):
         return list(self.obligations.values())
+
+    def known_for(self, name):
+        import fnmatch
+
+        return [k for k in self.known if k.get("when") and fnmatch.fnmatch(name, k["obligation"])]
 
 
 class State:
@@ -254,8 +261,19 @@ class State:
                     ob.status = "discharged"
                 elif r == z3.sat:
                     ob.status = "failed"
+                    known = self.ex.known_for(name)
+                    if known:
+                        outside = [z3.Not(k) for k in self.known_conds(known)]
+                        r3, m3 = self._check(z3.And(z3.Not(formula), *outside), self.cfg.oblig_timeout_ms)
+                        if r3 == z3.unsat:
+                            ob.status = "known"
+                            ob.detail = "all counterexamples lie inside the listed known finding(s): " + "; ".join(k["id"] for k in known)
+                        elif r3 == z3.sat:
+                            model = m3
+                    model = self.shrink(z3.Not(formula) if ob.status == "known" else z3.And(z3.Not(formula), *([z3.Not(k) for k in self.known_conds(known)] if known else [])), model)
                     ob.model = self.extract_model(model)
-                    ob.detail = f"counterexample to: {_short(formula)}"
+                    if ob.status == "failed":
+                        ob.detail = f"counterexample to: {_short(formula)}"
                 else:
                     ob.status = "undecided"
                     if self.cfg.use_cvc5:
@@ -272,6 +290,50 @@ class State:
             ob.time = time.time() - t0
         self.assume(formula)
         return ob
+
+    def known_conds(self, known):
+        from .seqs import View
+
+        out = []
+        for k in known:
+            env = dict(self.ex.known_env)
+            env["a"] = View(self.ex.inputs or {})
+            c = eval(k["when"], env)  # noqa: S307 - expressions come from /verif/known_findings.jsonl
+            out.append(V._zb(c) if isinstance(c, (SBool, bool)) else z3.BoolVal(bool(c)))
+        return out
+
+    def shrink(self, goal, model):
+        """Prefer a counterexample with small integers (better replay files); keeps `model` otherwise."""
+        leaves = []
+
+        def walk(v):
+            if isinstance(v, SInt):
+                leaves.append(v.e)
+            elif isinstance(v, SOpt):
+                walk(v.val)
+            elif isinstance(v, (tuple, list)):
+                for x in v:
+                    walk(x)
+            elif isinstance(v, dict):
+                for x in v.values():
+                    walk(x)
+            elif hasattr(v, "fields"):
+                walk(v.fields)
+            elif hasattr(v, "seq"):
+                walk(v.seq)
+            elif hasattr(v, "length") and not isinstance(v.length, int) and v.length is not None:
+                walk(v.length)
+            elif hasattr(v, "start") and hasattr(v, "stop"):
+                walk((v.start, v.stop, v.step))
+
+        walk(self.ex.inputs or {})
+        if not leaves:
+            return model
+        for bound in (4, 12, 64):
+            r, m = self._check(z3.And(goal, *[z3.And(e >= -bound, e <= bound) for e in leaves]), 1500)
+            if r == z3.sat:
+                return m
+        return model
 
     def cover(self, name):
         """Vacuity guard: the current point must be reachable (pc satisfiable)."""
@@ -305,6 +367,14 @@ class State:
                 out[k] = concretize(model, v)
             except Exception as e:  # noqa: BLE001
                 out[k] = f"<{type(e).__name__}: {e}>"
+        calls = []
+        for recv, name, vals, result in self.ghost.get("uf_calls", []):
+            try:
+                calls.append([recv, name, concretize(model, vals), concretize(model, result)])
+            except Exception:  # noqa: BLE001, S112
+                continue
+        if calls:
+            out["__calls__"] = calls
         return out
 
     # ---- ghost trace
